@@ -7,12 +7,15 @@ import Blue.Proofs.KvsConcFirstHit
 import Blue.Proofs.KvsConcSnapBridge
 import Blue.Proofs.KvsConcFail
 import Blue.Proofs.ConstsTieC06
+import Blue.Proofs.KvsConcTree
+import Blue.Proofs.KvsConcTreeLin
 /-! # Property C06 — concurrent reads/writes are linearizable; batches become visible atomically
 
 Property theorems only (helper lemmas and invariants live in `Blue/Proofs/{KvsWrite,Rollover,KvsConc,
-KvsConcHandoff}.lean`).
+KvsConcHandoff,KvsConcTree,KvsConcTreeLin}.lean`).
 
-Three executable models of `lsmtk/src/kvs/mod.rs`, one step per critical section or lock-free access,
+Three executable models of `lsmtk/src/kvs/mod.rs` (and a fourth, `Blue.KvsConcTree`, that wraps the first:
+block `KvsConcTree`), one step per critical section or lock-free access,
 theorems for *every* interleaving of their events:
 
 * `Blue.KvsConc` — the joined system the correspondence check replays recorded runs through:
@@ -47,12 +50,28 @@ anywhere in the run (they are steps of `Blue.KvsConc.step`; `reachable_inv` cove
 on any read.  `failed_write_publishes_tears_batch` is the counterexample for a store whose failed
 writes publish their number on the way out.
 
-What the model does NOT have (said here once): a compaction is a version-number bump only
-(`tInstall`: same tables, other files) and garbage collection is absent — that they preserve the
-newest version of every key is C01 / C05; flush / clear / install steps do not touch table
-contents, so for those events `snapshot_stable` holds by construction (its content is the `wIns`
-case: every later insert is numbered above every existing snapshot's timestamp —
-`late_inserts_above_snapshot_ts`).  `flushed_table_complete` / `insert_only_into_open_table` /
+What `Blue.KvsConc` does NOT have (said here once): a compaction is a version-number bump only
+(`tInstall`: same tables, other files) and garbage collection is absent; flush / clear / install
+steps do not touch table contents, so for those events `snapshot_stable` holds by construction (its
+content is the `wIns` case: every later insert is numbered above every existing snapshot's timestamp
+— `late_inserts_above_snapshot_ts`).  Block `KvsConcTree` at the end closes that: `Blue.KvsConcTree`
+wraps the same writer / reader / flush steps with a tree of real files (version lists per file, a
+flush writes the file of `imm`) and two installs that CHANGE what the tables hold — `tCompact`
+(conserving: the outputs hold exactly the versions of the inputs) and `tGc` (collecting, under the
+obligations of `Blue.StoreHistGc.GcCompactionOk`: outputs ⊆ inputs, newest version per key kept or
+tombstone → nothing / older tombstone, nothing below).  Readers keep the file ids of the version
+they cloned.  `snapshot_stable_tree` (a snapshot's view, point reads, values and scan lists do not
+change under any later event, installs included), `install_invisible_to_new_readers` /
+`gc_invisible_to_new_readers` (a snapshot taken after the install answers as one taken before it:
+conserving — same entry at every timestamp; collecting — same value at every timestamp
+`visible_seq_no` had reached, which is every timestamp a reader can have; entry level with the
+tombstone exception; false for older timestamps, example), `tree_reads_refine` +
+`linearizable_with_installs` + `order_with_installs` (every tree snapshot reads, value for value,
+what the `Blue.KvsConc` reader of the same `rSnap` reads, so the obligations above hold for the
+values read in runs with installs).  Search order inside the tree (first hit over the files of a
+version = newest version, closed compactions keep "newer above") stays C01; a batch naming one key
+twice stays outside (D-16; `wBegin` of the tree model asks for distinct keys).
+`flushed_table_complete` / `insert_only_into_open_table` /
 `first_hit_eq_newest` take `mem0 < seq0` (the store opens with `mem_seq_no < seq_no`, as
 `verif_state` reports and the driver checks on every trace). -/
 namespace Blue.Props.C06
@@ -482,6 +501,186 @@ theorem clear_before_install_loses :
 
 end rollover
 
+-- BEGIN KvsConcTree
+/-! ## tree installs that change what the tables hold (`Blue.KvsConcTree`) -/
+section conctree
+open Blue.KvsConcTree Blue.KvsConc
+
+/-- the run of the non-vacuity examples below: batch 3 over keys 1, 2; flush (file 0); writers 5
+    (delete key 1) and 6 (put key 2) overlap, reader 0 snapshots between their returns (ts 5, holds
+    memtable 3 and file 0); second flush (file 1); reader 1 snapshots (files 1, 0); `tCompact`
+    merges files 1 and 0 into file 2 (same four versions); reader 2 snapshots (file 2); `tGc`
+    rewrites file 2 into file 3 dropping the tombstone of key 1 with the put below it and the
+    overwritten put of key 2; reader 3 snapshots (file 3); write 8 puts key 1 -/
+def exTreeRun : List TEv :=
+  [.base (.wBegin 3 1 [(1, some 7), (2, some 8)]), .base (.wLog 3), .base (.wIns 3 0), .base (.wIns 3 1), .base (.wFin 3),
+   .base (.fRotate 3 1), .base (.fHead 3), .base (.fInstall 1 1), .base (.fClear 1),
+   .base (.wBegin 5 3 [(1, none)]), .base (.wBegin 6 3 [(2, some 9)]), .base (.wLog 6), .base (.wIns 6 0),
+   .base (.wLog 5), .base (.wIns 5 0), .base (.wFin 5),
+   .base (.rTree 0 1), .base (.rSnap 0 5 3 false),
+   .base (.wFin 6),
+   .base (.fRotate 6 3), .base (.fHead 6), .base (.fInstall 3 2), .base (.fClear 3),
+   .base (.rTree 1 2), .base (.rSnap 1 6 6 false),
+   .tCompact 3 [1, 0] [[⟨1, 5, none⟩, ⟨1, 3, some 7⟩, ⟨2, 6, some 9⟩, ⟨2, 3, some 8⟩]],
+   .base (.rTree 2 3), .base (.rSnap 2 6 6 false),
+   .tGc 4 [2] [[⟨2, 6, some 9⟩]],
+   .base (.rTree 3 4), .base (.rSnap 3 6 6 false),
+   .base (.wBegin 8 6 [(1, some 5)]), .base (.wLog 8), .base (.wIns 8 0), .base (.wFin 8)]
+
+/-- **snapshot_stable_tree**: what a reader's snapshot shows — the visible versions, every point
+    read, every value, every scan list at its read timestamp — does not change under any later
+    event: inserts of writers in flight, rotation, flush install, `imm := none`, other readers,
+    conserving compactions and garbage-collecting compactions that REPLACE the files of the
+    current version.  Not by construction: `tCompact` / `tGc` change `cur` and what its files hold;
+    the reader keeps the file ids of the version it cloned, files are written once under fresh ids
+    (`TInv.fid`, `entsOf_step`) and stay addressable to it (C07 / C08: the bytes), and every later
+    memtable insert is numbered above its timestamp (`view_step_le`). -/
+theorem snapshot_stable_tree {seq0 mem0 : Nat} {pre evs : List TEv} {t t' : TSt}
+    (hpre : trun (tinit true seq0 mem0) pre = some t) (hrun : trun t evs = some t')
+    (p : Nat × TSnap) (hp : p ∈ t.snaps) :
+    tview t' p.2 = tview t p.2 ∧ (∀ k, tlookup t' p.2 k = tlookup t p.2 k) ∧ (∀ k, tvalue t' p.2 k = tvalue t p.2 k)
+      ∧ ∀ keys, tscan t' p.2 keys = tscan t p.2 keys :=
+  Blue.KvsConcTree.snapshot_stable_tree hpre hrun p hp
+
+/-- non-vacuity: the four readers of `exTreeRun` hold four different versions (files [0], [1, 0],
+    [2], [3]); after both installs and a later write each still answers what it answered -/
+example : ∃ t, trun (tinit true 2 1) exTreeRun = some t ∧ t.cur = [3] ∧
+    t.snaps.map (fun p => (p.1, p.2.files, tvalue t p.2 1, tvalue t p.2 2))
+      = [(3, [3], none, some 9), (2, [2], none, some 9), (1, [1, 0], none, some 9), (0, [0], none, some 8)] ∧
+    t.snaps.map (fun p => tscan t p.2 [1, 2]) = [[(2, 9)], [(2, 9)], [(2, 9)], [(2, 8)]] := by
+  decide
+
+/-- **install_invisible_to_new_readers**, conserving compaction: in every reachable state (both read
+    policies), over the version a `tCompact` installs every point read answers — at EVERY timestamp
+    and over any memtables, in particular for the snapshot `load` / `range_scan` take now — with
+    the entry the version before it answers; values and scan lists follow -/
+theorem install_invisible_to_new_readers {c : Bool} {seq0 mem0 : Nat} {pre : List TEv} {t t' : TSt}
+    {vid : Nat} {ins : List Nat} {outs : List (List Entry)}
+    (hpre : trun (tinit c seq0 mem0) pre = some t) (h : tstep t (.tCompact vid ins outs) = some t') :
+    (∀ ts M k, tlookup t' ⟨ts, M, t'.cur⟩ k = tlookup t ⟨ts, M, t.cur⟩ k) ∧
+    (∀ k, tlookup t' (snapNow t') k = tlookup t (snapNow t) k) ∧
+    (∀ k, tvalue t' (snapNow t') k = tvalue t (snapNow t) k) ∧
+    ∀ keys, tscan t' (snapNow t') keys = tscan t (snapNow t) keys :=
+  Blue.KvsConcTree.install_invisible_to_new_readers hpre h
+
+/-- **install_invisible_to_new_readers**, collecting compaction: a reader that snapshots after a
+    `tGc` reads — as `load` / `range_scan` do — at the `visible_seq_no` it finds in the critical
+    section in which it clones the version, which is at least the `visible_seq_no` of the install;
+    every version in a file is at most that (`file_ents_visible`: the flush passes the wait list
+    first).  It gets the value (and scan list) it would have got before the install; the entry is
+    the same, or a tombstone before and no version / an older tombstone after.  Last clause: the
+    same at every timestamp `visible_seq_no` had reached at the install.  For OLDER timestamps the
+    statement is false (next example) — no reader of the code has one: timestamp and version are
+    taken under one lock (kvs/mod.rs `load`, `range_scan`), and the model's `rTree` precedes
+    `rSnap`, so a reader's version is never newer than its timestamp. -/
+theorem gc_invisible_to_new_readers {c : Bool} {seq0 mem0 : Nat} (hm : mem0 < seq0) {pre : List TEv} {t t' : TSt}
+    {vid : Nat} {ins : List Nat} {outs : List (List Entry)}
+    (hpre : trun (tinit c seq0 mem0) pre = some t) (h : tstep t (.tGc vid ins outs) = some t') :
+    (∀ k, tvalue t' (snapNow t') k = tvalue t (snapNow t) k) ∧
+    (∀ keys, tscan t' (snapNow t') keys = tscan t (snapNow t) keys) ∧
+    (∀ k, tlookup t' (snapNow t') k = tlookup t (snapNow t) k ∨
+      ∃ n, tlookup t (snapNow t) k = some n ∧ n.val = none ∧
+        ∀ n', tlookup t' (snapNow t') k = some n' → n'.val = none) ∧
+    ∀ ts, t.base.visible ≤ ts → ∀ k,
+      tvalue t' ⟨ts, t.base.memId :: t.base.imm.toList, t'.cur⟩ k
+        = tvalue t ⟨ts, t.base.memId :: t.base.imm.toList, t.cur⟩ k :=
+  Blue.KvsConcTree.gc_invisible_to_new_readers hm hpre h
+
+/-- non-vacuity of both, and the exception: before / after the `tCompact` and before / after the
+    `tGc` of `exTreeRun` the snapshot taken now answers (none, some 9); the entry for key 1 is the
+    tombstone at 5 before the collection and no version after it -/
+example :
+    (trun (tinit true 2 1) (exTreeRun.take 25)).map (fun t => (t.cur, tvalue t (snapNow t) 1, tvalue t (snapNow t) 2))
+      = some ([1, 0], none, some 9) ∧
+    (trun (tinit true 2 1) (exTreeRun.take 26)).map (fun t => (t.cur, tvalue t (snapNow t) 1, tvalue t (snapNow t) 2,
+        tlookup t (snapNow t) 1)) = some ([2], none, some 9, some ⟨1, 5, none⟩) ∧
+    (trun (tinit true 2 1) (exTreeRun.take 29)).map (fun t => (t.cur, tvalue t (snapNow t) 1, tvalue t (snapNow t) 2,
+        tlookup t (snapNow t) 1)) = some ([3], none, some 9, none) := by
+  decide
+
+/-- **a collection IS visible at a timestamp older than what it dropped was overwritten at**: over
+    the version before the `tGc` a read at timestamp 4 answers (some 7, some 8), over the version
+    after it (none, none).  Such a snapshot (new version, old timestamp) is not a state of the
+    model or of the code. -/
+example :
+    (trun (tinit true 2 1) (exTreeRun.take 26)).map (fun t => (tvalue t ⟨4, [6], t.cur⟩ 1, tvalue t ⟨4, [6], t.cur⟩ 2))
+      = some (some 7, some 8) ∧
+    (trun (tinit true 2 1) (exTreeRun.take 29)).map (fun t => (tvalue t ⟨4, [6], t.cur⟩ 1, tvalue t ⟨4, [6], t.cur⟩ 2))
+      = some (none, none) := by
+  decide
+
+/-- **the tree model refines the model whose tables never shrink**: in every reachable state, every
+    snapshot of the tree model stands next to the snapshot the `Blue.KvsConc` reader took in the
+    same `rSnap` (same reader, same timestamp), and every key reads the same VALUE through both —
+    whatever flushes, conserving and collecting compactions rewrote the files in between.  (The
+    entries may differ: a dropped tombstone reads "no version".)  Invariant: `TJ` — the files of
+    every version (current, cloned, held in a snapshot) stand for the tables it was built from
+    under any memtables above them (`J`), kept by flush (`J_flush`), conserving (`J_congr`) and
+    collecting (`J_gc`) installs. -/
+theorem tree_reads_refine {c : Bool} {seq0 mem0 : Nat} (hm : mem0 < seq0) {evs : List TEv} {t : TSt}
+    (hrun : trun (tinit c seq0 mem0) evs = some t) (p : Nat × TSnap) (hp : p ∈ t.snaps) :
+    ∃ r ∈ t.base.readers, r.1 = p.1 ∧ r.2.ts = p.2.ts ∧ ∀ k, tvalue t p.2 k = value t.base r.2 k :=
+  Blue.KvsConcTree.tree_reads_refine hm hrun p hp
+
+/-- **linearizable_with_installs**: the linearizability obligations for the values read in runs
+    with content-changing installs.  The run projects onto a `Blue.KvsConc` run (compactions ↦
+    `tInstall`), to which every theorem of section `conc` applies; for every tree snapshot there is
+    the base reader `r` of the same `rSnap` with: the same value for every key; `no_stale_read`
+    (clean: for every returned write the timestamp covers and each of its keys the value read is
+    that of an entry at least as new, put by some write, within the timestamp); `no_phantom` (a
+    value read was put for that key by a write numbered within the timestamp); `batch_atomic`
+    (repaired timestamp, clean: of every begun write either each key of the batch is answered by
+    an entry at least as new, or no answer carries its number). -/
+theorem linearizable_with_installs {c : Bool} {seq0 mem0 : Nat} (hm : mem0 < seq0) {evs : List TEv} {t : TSt}
+    (hrun : trun (tinit c seq0 mem0) evs = some t) (p : Nat × TSnap) (hp : p ∈ t.snaps) :
+    run (init c seq0 mem0) (evs.map proj) = some t.base ∧
+    ∃ r ∈ t.base.readers, r.1 = p.1 ∧ r.2.ts = p.2.ts ∧
+      (∀ k, tvalue t p.2 k = value t.base r.2 k) ∧
+      (r.2.clean = true → ∀ w ∈ t.base.writers, w.finished = true → w.seq ≤ p.2.ts →
+        ∀ k v, (k, v) ∈ w.batch → ∃ e : Entry, w.seq ≤ e.seq ∧ e.seq ≤ p.2.ts ∧ tvalue t p.2 k = e.val ∧
+          ∃ w' ∈ t.base.writers, w'.seq = e.seq ∧ (k, e.val) ∈ w'.batch) ∧
+      (∀ k v, tvalue t p.2 k = some v → ∃ w ∈ t.base.writers, w.seq ≤ p.2.ts ∧ (k, some v) ∈ w.batch) ∧
+      (c = true → r.2.clean = true → ∀ w ∈ t.base.writers,
+        (∀ kv ∈ w.batch, ∃ e : Entry, w.seq ≤ e.seq ∧ tvalue t p.2 kv.1 = e.val) ∨
+        (∀ k e, lookup t.base r.2 k = some e → e.seq ≠ w.seq)) :=
+  Blue.KvsConcTree.linearizable_with_installs hm hrun p hp
+
+/-- … with `snapshot_after_return_covers` and `write_order` for steps of the tree model -/
+theorem order_with_installs {c : Bool} {seq0 mem0 : Nat} {evs : List TEv} {t t' : TSt}
+    (hrun : trun (tinit c seq0 mem0) evs = some t) :
+    (∀ rid ts mem imm, tstep t (.base (.rSnap rid ts mem imm)) = some t' →
+      ∀ w ∈ t.base.writers, w.finished = true → w.seq ≤ ts) ∧
+    (∀ q tb b, tstep t (.base (.wBegin q tb b)) = some t' → ∀ w ∈ t.base.writers, w.seq < q) :=
+  Blue.KvsConcTree.order_with_installs hrun
+
+/-- non-vacuity: in the final state of `exTreeRun` the four tree snapshots stand next to the four
+    (clean) base readers, value for value — reader 3 reads key 1 from a version without the
+    tombstone the base reader finds — and the writers 3, 5, 6, 8 have returned -/
+example : ∃ t, trun (tinit true 2 1) exTreeRun = some t ∧
+    t.snaps.map (fun p => (p.1, p.2.ts, tvalue t p.2 1, tvalue t p.2 2))
+      = t.base.readers.map (fun r => (r.1, r.2.ts, value t.base r.2 1, value t.base r.2 2)) ∧
+    t.base.readers.map (fun r => (r.2.clean, (lookup t.base r.2 1).map (·.seq))) =
+      [(true, some 5), (true, some 5), (true, some 5), (true, some 5)] ∧
+    t.snaps.map (fun p => (tlookup t p.2 1).map (·.seq)) = [none, some 5, some 5, some 5] ∧
+    t.base.writers.map (fun w => (w.seq, w.finished)) = [(3, true), (5, true), (6, true), (8, true)] := by
+  decide
+
+/-- **the wrapper disables nothing**: in every reachable state of the tree model every event of
+    `Blue.KvsConc` the base state enables is enabled in the tree model too (the reader's version in
+    the tree part is there whenever its version in the base is: `Sync`) — except `wBegin` of a batch
+    naming one key twice (D-16).  So every `Blue.KvsConc` run with such batches, with any `tCompact`
+    / `tGc` allowed by their obligations in between, is a run of the tree model. -/
+theorem base_event_enabled {c : Bool} {seq0 mem0 : Nat} {evs : List TEv} {t : TSt}
+    (hrun : trun (tinit c seq0 mem0) evs = some t) (e : Ev) (b : St) (hb : step t.base e = some b)
+    (hnd : ∀ q tb bt, e = .wBegin q tb bt → (bt.map (·.1)).Nodup) : ∃ t', tstep t (.base e) = some t' :=
+  Blue.KvsConcTree.base_event_enabled hrun e b hb hnd
+
+example : ((trun (tinit true 2 1) (exTreeRun.take 17)).bind (fun t => step t.base (.rSnap 0 5 3 false))).isSome = true := by
+  decide
+
+end conctree
+-- END KvsConcTree
+
 end Blue.Props.C06
 
 #print axioms Blue.Props.C06.batch_atomic
@@ -526,5 +725,12 @@ end Blue.Props.C06
 #print axioms Blue.Props.C06.failed_head_hands_on
 #print axioms Blue.Props.C06.failed_write_publishes_tears_batch
 #print axioms Blue.Props.C06.same_schedule_failed_write_publishes_nothing
+#print axioms Blue.Props.C06.snapshot_stable_tree
+#print axioms Blue.Props.C06.install_invisible_to_new_readers
+#print axioms Blue.Props.C06.gc_invisible_to_new_readers
+#print axioms Blue.Props.C06.tree_reads_refine
+#print axioms Blue.Props.C06.linearizable_with_installs
+#print axioms Blue.Props.C06.order_with_installs
+#print axioms Blue.Props.C06.base_event_enabled
 #print axioms Blue.ConstsTie.kvs_read_policy
 #print axioms Blue.ConstsTie.kvs_failed_write_exit
